@@ -361,9 +361,21 @@ pub struct Step {
 
 fn raw_sync<S: std::io::Read + std::io::BufRead>(s: &mut S, n: usize, via: u8) -> Result<Vec<u8>, std::io::Error> {
     let mut buf = vec![0u8; n];
-    match via % 3 {
+    match via % 5 {
         0 => {
             s.read_exact(&mut buf)?;
+        }
+        3 => {
+            // Read::read_to_end appends: the caller's Vec is not empty (a header is already in it)
+            let mut v = vec![b'h', b'd', b'r'];
+            s.read_to_end(&mut v)?;
+            buf = v.split_off(3);
+        }
+        4 => {
+            // BufRead::read_until, also appending to a non-empty Vec
+            let mut v = vec![b'h', b'd', b'r'];
+            s.read_until(b'>', &mut v)?;
+            buf = v.split_off(3);
         }
         1 => {
             let mut got = 0;
@@ -397,9 +409,19 @@ fn raw_sync<S: std::io::Read + std::io::BufRead>(s: &mut S, n: usize, via: u8) -
 async fn raw_async<S: tokio::io::AsyncRead + tokio::io::AsyncBufRead + Unpin>(s: &mut S, n: usize, via: u8) -> Result<Vec<u8>, std::io::Error> {
     use tokio::io::{AsyncBufReadExt, AsyncReadExt};
     let mut buf = vec![0u8; n];
-    match via % 3 {
+    match via % 5 {
         0 => {
             s.read_exact(&mut buf).await?;
+        }
+        3 => {
+            let mut v = vec![b'h', b'd', b'r'];
+            s.read_to_end(&mut v).await?;
+            buf = v.split_off(3);
+        }
+        4 => {
+            let mut v = vec![b'h', b'd', b'r'];
+            s.read_until(b'>', &mut v).await?;
+            buf = v.split_off(3);
         }
         1 => {
             let mut got = 0;
